@@ -26,10 +26,16 @@
 #define MAXF 8
 
 static MPT_INTERFACE(input) *in;
+static MPT_STRUCT(connection) con;       /* via=conn: connection with a stream backend */
+static MPT_STRUCT(stream) *cs;
+static int via_conn;
 static MPT_STRUCT(stream) peer;
 static int have_peer;
 static size_t idlen;
 static MPT_INTERFACE(reply_context) *saved_rc;
+#define MAXH 16
+static MPT_INTERFACE(reply_context_detached) *hd[MAXH + 1];
+static int defer_slot, got_handle;
 
 /* what the handler saw / was told to do */
 static struct seen {
@@ -51,6 +57,17 @@ static struct frame {
 } frames[MAXF];
 static int nframes;
 
+static void fill_msg(MPT_STRUCT(message) *msg, struct iovec *vec)
+{
+	static const MPT_STRUCT(message) empty = MPT_MESSAGE_INIT;
+	*msg = empty;
+	msg->base = rdata;
+	msg->used = rlen < 2 ? rlen : 2;
+	if (rlen > 2) {
+		vec->iov_base = rdata + 2; vec->iov_len = rlen - 2;
+		msg->cont = vec; msg->clen = 1;
+	}
+}
 static int send_reply(MPT_INTERFACE(reply_context) *rc)
 {
 	MPT_STRUCT(message) msg = MPT_MESSAGE_INIT;
@@ -81,7 +98,12 @@ static int handler(void *arg, MPT_STRUCT(event) *ev)
 	}
 	if (ev->reply) {
 		saved_rc = ev->reply;
-		if (!strcmp(act, "reply") || !strcmp(act, "reply2")) {
+		if (!strcmp(act, "defer")) {
+			MPT_INTERFACE(reply_context_detached) *d = ev->reply->_vptr->defer(ev->reply);
+			got_handle = d ? 1 : 0;
+			if (d && defer_slot >= 1 && defer_slot <= MAXH) hd[defer_slot] = d;
+		}
+		else if (!strcmp(act, "reply") || !strcmp(act, "reply2")) {
 			r1 = send_reply(ev->reply);
 			if (!strcmp(act, "reply2")) {
 				r2 = send_reply(ev->reply);
@@ -111,6 +133,8 @@ static void drv_reset(void)
 	if (sv[1] >= 0) close(sv[1]);
 	sv[0] = sv[1] = -1;
 	in = 0; have_peer = 0; saved_rc = 0; idlen = 0;
+	cs = 0; via_conn = 0;
+	memset(hd, 0, sizeof(hd));
 }
 
 static void limbs_out(const char *key, uintptr_t v)
@@ -127,7 +151,9 @@ static void pump_back(void)
 {
 	int r, guard = 0;
 	nframes = 0;
-	in->_vptr->next(in, POLLOUT);              /* flushes pending output */
+	/* flush pending output */
+	if (via_conn) mpt_stream_poll(cs, POLLOUT, -1);
+	else in->_vptr->next(in, POLLOUT);
 	nwire = recv(sv[1], wire, sizeof(wire), MSG_PEEK | MSG_DONTWAIT);   /* diagnostic only */
 	if (mpt_stream_poll(&peer, POLLIN, 0) < 0) return;
 	do {
@@ -170,6 +196,10 @@ static int feed(const uint8_t *id, size_t il, const uint8_t *pay, size_t pl)
 	if (pl && mpt_stream_push(&peer, pl, pay) < 0) return -101;
 	if (mpt_stream_push(&peer, 0, 0) < 0) return -102;
 	if (mpt_stream_flush(&peer) < 0) return -103;
+	if (via_conn) {
+		if ((r = mpt_stream_poll(cs, POLLIN, -1)) < 0) return -104;
+		return mpt_connection_dispatch(&con, handler, 0);
+	}
 	if ((r = in->_vptr->next(in, POLLIN)) < 0) return -104;
 	return in->_vptr->dispatch(in, handler, 0);
 }
@@ -180,7 +210,8 @@ static void drv_step(struct cmd *c)
 	size_t il = 0, pl = 0;
 	uint8_t *id = 0, *pay = 0;
 
-	nseen = 0; nframes = 0; have_r2 = 0; r1 = r2 = 0;
+	nseen = 0; nframes = 0; have_r2 = 0; r1 = r2 = 0; got_handle = -1;
+	defer_slot = (int) drv_int(c, "h", 0);
 	act = drv_raw(c, "act");
 	if (!act) act = "none";
 	hret = (int) drv_int(c, "hret", 0);
@@ -197,22 +228,45 @@ static void drv_step(struct cmd *c)
 			return;
 		}
 		s._id = sv[0];
-		in = mpt_stream_input(&s, MPT_STREAMFLAG(RdWr) | MPT_STREAMFLAG(Write) | MPT_STREAMFLAG(Buffer),
-		                      MPT_ENUM(EncodingCobs), idlen);
+		if (drv_raw(c, "via") && !strcmp(drv_raw(c, "via"), "conn")) {
+			/* what mpt_connection_open sets up for a stream target */
+			static const MPT_STRUCT(connection) cfresh = MPT_CONNECTION_INIT;
+			via_conn = 1;
+			con = cfresh;
+			cs = (MPT_STRUCT(stream) *) malloc(sizeof(*cs));
+			*cs = fresh;
+			cs->_rd._dec = mpt_message_decoder(MPT_ENUM(EncodingCobs));
+			cs->_wd._enc = mpt_message_encoder(MPT_ENUM(EncodingCobs));
+			if (mpt_stream_dopen(cs, &s, MPT_STREAMFLAG(RdWr) | MPT_STREAMFLAG(Buffer)) < 0) {
+				cs = 0;
+			} else {
+				con.out.buf._buf = (void *) cs;
+				con.out._idlen = (uint8_t) idlen;
+			}
+		} else {
+			in = mpt_stream_input(&s, MPT_STREAMFLAG(RdWr) | MPT_STREAMFLAG(Write) | MPT_STREAMFLAG(Buffer),
+			                      MPT_ENUM(EncodingCobs), idlen);
+		}
 		peer = fresh;
 		peer._rd._dec = mpt_message_decoder(MPT_ENUM(EncodingCobs));
 		peer._wd._enc = mpt_message_encoder(MPT_ENUM(EncodingCobs));
 		s._id = sv[1];
 		have_peer = mpt_stream_dopen(&peer, &s, MPT_STREAMFLAG(RdWr) | MPT_STREAMFLAG(Buffer)) >= 0;
 		drv_begin(c);
-		j_str("ret", (in && have_peer) ? "ok" : "noinput");
+		j_str("ret", ((in || cs) && have_peer) ? "ok" : "noinput");
 		drv_dbg();
 		drv_end();
 		free(rdata);
 		return;
 	}
-	if (!in || !have_peer) {
+	if ((!in && !cs) || !have_peer) {
 		drv_begin(c); j_str("ret", "noinput"); drv_dbg(); drv_end();
+		free(rdata);
+		return;
+	}
+	if (!strcmp(a, "srequest") && !strcmp(act, "defer")
+	    && (!via_conn || defer_slot < 1 || defer_slot > MAXH || hd[defer_slot])) {
+		drv_begin(c); j_str("ret", "skipped"); drv_dbg(); drv_end();
 		free(rdata);
 		return;
 	}
@@ -225,12 +279,29 @@ static void drv_step(struct cmd *c)
 		drv_begin(c);
 		emit_seen();
 		emit_frames();
-		j_str("r2", !have_r2 ? "none" : r2 < 0 ? "refused" : "ok");
+		j_str("r2", got_handle >= 0 ? (got_handle ? "handle" : "nohandle") : !have_r2 ? "none" : r2 < 0 ? "refused" : "ok");
 		drv_dbg();
 		j_int("dispatch", r);
 		j_int("r1", r1);
 		j_bytes("wire", wire, nwire > 0 ? (size_t) nwire : 0);
 		drv_end();
+	}
+	else if (!strcmp(a, "sdreply")) {
+		int h = (int) drv_int(c, "h", 0), r;
+		if (h < 1 || h > MAXH || !hd[h]) {
+			drv_begin(c); j_str("ret", "skipped"); drv_dbg(); drv_end();
+		} else {
+			MPT_STRUCT(message) msg; struct iovec vec;
+			fill_msg(&msg, &vec);
+			r = hd[h]->_vptr->reply(hd[h], &msg);
+			if (r >= 0) hd[h] = 0;
+			pump_back();
+			drv_begin(c);
+			j_str("ret", r < 0 ? "refused" : "ok");
+			emit_frames();
+			drv_dbg();
+			drv_end();
+		}
 	}
 	else if (!strcmp(a, "slate")) {
 		int r;
